@@ -319,6 +319,7 @@ func (h *HarnessRun) runPath(fn *ssa.Function, prefix []int, sol *Solver) (alts 
 
 type HarnessResult struct {
 	Name        string
+	Pkg         string
 	Paths       int
 	Pruned      int
 	Obligations int
@@ -349,7 +350,7 @@ func setKeys(m map[string]bool) []string {
 }
 
 func (h *HarnessRun) Result(err error) *HarnessResult {
-	r := &HarnessResult{Name: h.spec.Name, Paths: h.paths, Pruned: h.pruned, Obligations: h.obligations, Discharged: h.discharged,
+	r := &HarnessResult{Name: h.spec.Name, Pkg: h.spec.Pkg, Paths: h.paths, Pruned: h.pruned, Obligations: h.obligations, Discharged: h.discharged,
 		Unknowns: h.unknowns, Unsupported: h.unsupported, Reach: h.reach, Violations: h.violations,
 		Stubs: setKeys(h.stubs), SQL: setKeys(h.sqls), Funcs: setKeys(h.funcs), Bounds: setKeys(h.bounds), Samples: h.samples,
 		Cuts: h.cuts, Commits: h.commits, WallS: time.Since(h.t0).Seconds()}
